@@ -24,6 +24,8 @@ the sites in `$VERIF_REPO/ariadne_codegen` with the `ast` module:
   state:cache   @lru_cache / @cache / @functools.* decorated function (key: decorator + function name)
   state:mutate  a module-level container (by name, any file) mutated: .setdefault/.update/.append/.../ x[k] = v / del
   state:global  `global NAME` statement
+  fs          file-system access: <receiver>.exists/is_dir/is_file/read_text/mkdir/write_text/unlink/...(...), open(...),
+              shutil.*, os.remove/rename/makedirs/...  (what is read, what is written, what is tested)
 
 A *set expression* is recognised by a conservative type inference by NAME: names/attributes annotated with
 something containing Set[...]/set[...]/set, assigned from a set expression, tuple-unpacked from a function
@@ -51,6 +53,10 @@ LISTING = {"glob", "rglob", "iterdir", "listdir", "walk", "scandir"}
 EXCLUDE_DIRS = ("client_generators/dependencies",)
 # text-to-text stages between the generated AST and the file: isort's section placement consults the filesystem
 # unless it is configured not to, so HOW it is called is part of the site
+# file-system access: what the generator reads and writes (receiver and method; arguments elided)
+FS_METHODS = {"exists", "is_dir", "is_file", "read_text", "read_bytes", "mkdir", "write_text", "write_bytes", "unlink",
+              "rmdir", "rename", "touch", "stat", "lstat", "iterdir", "samefile", "chmod", "symlink_to"}
+FS_FUNCS = {"open", "io.open", "os.listdir", "os.stat"}
 FORMATTERS = {"isort.code", "isort.api.sort_code_string", "format_str", "black.format_str", "fix_code",
               "autoflake.fix_code", "isort.file", "isort.stream"}
 
@@ -146,6 +152,7 @@ class FileScan:
             for c in ast.iter_child_nodes(p):
                 self.parent[c] = p
         self.sites: list[tuple] = []
+        self.site_nodes: list[tuple] = []
 
     # ---------------------------------------------------------------- inference
     def callee_name(self, call: ast.Call) -> str | None:
@@ -277,6 +284,7 @@ class FileScan:
         text = ast.unparse(expr if expr is not None else node)
         text = re.sub(r"\s+", " ", text)
         self.sites.append((self.rel, self.qualname(node), ctx, text, getattr(node, "lineno", 0)))
+        self.site_nodes.append(((self.rel, self.qualname(node), ctx, text), node, ctx))
 
     def in_test_position(self, e) -> bool:
         p = self.parent.get(e)
@@ -367,6 +375,13 @@ class FileScan:
                 if cn in LISTING:
                     self.add(n, "listing")
                 src = ast.unparse(n.func)
+                if (isinstance(n.func, ast.Attribute) and n.func.attr in FS_METHODS) or src in FS_FUNCS or src.startswith(
+                        ("shutil.", "os.remove", "os.unlink", "os.rename", "os.makedirs", "os.mkdir", "os.rmdir", "os.path.exists",
+                         "os.path.isfile", "os.path.isdir", "tempfile.")):
+                    recv = ast.unparse(n.func.value) if isinstance(n.func, ast.Attribute) else ""
+                    recv = re.sub(r"\s+", " ", recv)
+                    self.sites.append((self.rel, self.qualname(n), "fs",
+                                       (recv + "." + n.func.attr if recv else src) + "(...)", n.lineno))
                 if src in FORMATTERS:
                     self.add(n, "formatter")
                 if (isinstance(n.func, ast.Name) and cn in ("hash", "id")) or re.match(
@@ -427,6 +442,11 @@ def state_sites(rel: str, tree: ast.Module, module_containers: set[str]) -> list
                 bindings(st.body, "state:class", (owner + "." if owner != "<module>" else "") + st.name)
 
     bindings(tree.body, "state:module", "<module>")
+    for st in tree.body:   # how the formatters are configured is part of how they are called
+        val = getattr(st, "value", None)
+        if isinstance(st, (ast.Assign, ast.AnnAssign)) and isinstance(val, ast.Call) and re.match(
+                r"^(isort\.(settings\.)?Config|Mode|black\.(Mode|FileMode))$", ast.unparse(val.func)):
+            out.append((rel, "<module>", "formatter", re.sub(r"\s+", " ", ast.unparse(st)), st.lineno))
     parent = {}
     for p_ in ast.walk(tree):
         for c in ast.iter_child_nodes(p_):
@@ -496,12 +516,312 @@ def scan_repo(repo: str) -> list[tuple]:
     return sites
 
 
+# ------------------------------------------------------------------------------------------ derived sinks
+ORDER_FREE = {"member", "eq", "size"}
+
+
+class Deriver:
+    """Small data-flow over the AST that DERIVES, for each consumption of a set / listing, what its iteration order
+    can reach, for the common shapes; anything else is "unknown" (the check then fails closed unless the table row
+    names a downstream expression that the scan can find).  Derived sinks:
+      sorted     wrapped in sorted(...) here; or a comprehension directly inside sorted(...); or a parameter /
+                 generator result that EVERY call site wraps in sorted(...)
+      member     membership / equality / size; a loop or comprehension that only feeds other sets; an argument
+                 whose parameter is consumed order-free in every callee of that name (one level deep)
+      none       construction
+      errortext  only inside a `raise` statement
+      unknown    everything else (escapes through a return / container / call the pass does not follow)"""
+
+    def __init__(self, scans: dict, trees: dict):
+        self.scans, self.trees = scans, trees
+        self.calls: dict[str, list[tuple]] = {}      # callee name -> [(scan, Call node)]
+        self.defs: dict[str, list[tuple]] = {}       # function name -> [(scan, FunctionDef)]
+        for sc in scans.values():
+            for n in ast.walk(sc.tree):
+                if isinstance(n, ast.Call):
+                    cn = sc.callee_name(n)
+                    if cn:
+                        self.calls.setdefault(cn, []).append((sc, n))
+                elif isinstance(n, (ast.FunctionDef, ast.AsyncFunctionDef)):
+                    self.defs.setdefault(n.name, []).append((sc, n))
+
+    # -- helpers
+    def enclosing(self, sc, node, types):
+        p = sc.parent.get(node)
+        while p is not None and not isinstance(p, types):
+            if isinstance(p, (ast.FunctionDef, ast.AsyncFunctionDef, ast.Lambda)) and ast.FunctionDef not in (
+                    types if isinstance(types, tuple) else (types,)):
+                return None
+            p = sc.parent.get(p)
+        return p
+
+    def enclosing_function(self, sc, node):
+        p = sc.parent.get(node)
+        while p is not None and not isinstance(p, (ast.FunctionDef, ast.AsyncFunctionDef)):
+            p = sc.parent.get(p)
+        return p
+
+    def feeds_only_sets(self, sc, stmts) -> bool:
+        for st in stmts:
+            if isinstance(st, (ast.Assign, ast.AnnAssign, ast.AugAssign)):
+                tgts = st.targets if isinstance(st, ast.Assign) else [st.target]
+                if st.value is None or not sc.is_set(st.value) or not all(
+                        _name_of(t) is not None and _name_of(t) in sc.sets for t in tgts):
+                    return False
+            elif isinstance(st, ast.Expr) and isinstance(st.value, ast.Call) and isinstance(st.value.func, ast.Attribute) \
+                    and st.value.func.attr in SET_MUTATORS and sc.is_set(st.value.func.value):
+                pass
+            elif isinstance(st, ast.If):
+                if not (self.feeds_only_sets(sc, st.body) and self.feeds_only_sets(sc, st.orelse)):
+                    return False
+            elif isinstance(st, (ast.Pass, ast.Continue)):
+                pass
+            else:
+                return False
+        return True
+
+    def all_callers_sort(self, fn_name: str, param: str | None, index: int | None):
+        """every call of fn_name passes sorted(...) for the parameter (or, param None: wraps the call in sorted)"""
+        calls = self.calls.get(fn_name, [])
+        if not calls:
+            return None
+        for sc, call in calls:
+            if param is None:
+                par = sc.parent.get(call)
+                if not (isinstance(par, ast.Call) and isinstance(par.func, ast.Name) and par.func.id == "sorted"
+                        and par.args and par.args[0] is call):
+                    return False
+                continue
+            arg = None
+            for kw in call.keywords:
+                if kw.arg == param:
+                    arg = kw.value
+            if arg is None and index is not None and index < len(call.args):
+                arg = call.args[index]
+            if not (isinstance(arg, ast.Call) and isinstance(arg.func, ast.Name) and arg.func.id == "sorted"):
+                return False
+        return True
+
+    def param_info(self, sc, node):
+        """node is a Name that is a parameter of its enclosing function -> (function, name, positional index sans self)"""
+        if not isinstance(node, ast.Name):
+            return None
+        fn = self.enclosing_function(sc, node)
+        if fn is None:
+            return None
+        names = [a.arg for a in fn.args.posonlyargs + fn.args.args]
+        if node.id not in names + [a.arg for a in fn.args.kwonlyargs]:
+            return None
+        # rebound inside the function? then it is not simply the parameter
+        for n in ast.walk(fn):
+            if isinstance(n, (ast.Assign, ast.AugAssign, ast.AnnAssign)):
+                tgts = n.targets if isinstance(n, ast.Assign) else [n.target]
+                if any(isinstance(t, ast.Name) and t.id == node.id for t in tgts):
+                    return None
+        pos = [x for x in names if x not in ("self", "cls")]
+        return fn, node.id, (pos.index(node.id) if node.id in pos else None)
+
+    def callee_param_order_free(self, sc, call: ast.Call, arg_node, depth=0):
+        cn = sc.callee_name(call)
+        defs = self.defs.get(cn or "", [])
+        if not defs or depth > 1:
+            return False
+        for dsc, fn in defs:
+            names = [a.arg for a in fn.args.posonlyargs + fn.args.args if a.arg not in ("self", "cls")]
+            pname = None
+            for kw in call.keywords:
+                if kw.value is arg_node:
+                    pname = kw.arg
+            if pname is None and arg_node in call.args:
+                i = call.args.index(arg_node)
+                pname = names[i] if i < len(names) else None
+            if pname is None:
+                return False
+            for n in ast.walk(fn):
+                if isinstance(n, ast.Name) and n.id == pname and isinstance(n.ctx, ast.Load):
+                    if not self.use_order_free(dsc, n, depth + 1):
+                        return False
+        return True
+
+    def use_order_free(self, sc, n, depth=0) -> bool:
+        """one load of a set-typed name: is this use order-free?"""
+        ctx = sc.classify(n) if sc.is_set(n) else "not-a-set"
+        if ctx == "not-a-set":
+            return False
+        if ctx is None:      # set algebra / data flow: follow one step to the enclosing set expression
+            p = sc.parent.get(n)
+            if isinstance(p, (ast.BinOp, ast.BoolOp)) and sc.is_set(p):
+                return self.use_order_free(sc, p, depth) if sc.classify(p) is not None or isinstance(
+                    sc.parent.get(p), (ast.BinOp, ast.BoolOp, ast.Return, ast.Assign)) else True
+            if isinstance(p, (ast.Return, ast.Assign, ast.AnnAssign, ast.AugAssign)):
+                return True   # handed on as a set: its consumers are sites of their own
+            if isinstance(p, ast.Attribute):
+                return True   # method of the set (union, copy, add ...)
+            if isinstance(p, ast.Call):
+                return True   # argument of set algebra (classify returned None for exactly those)
+            return False
+        if ctx in ORDER_FREE or ctx == "sorted":
+            return True
+        if ctx in ("iter",) or ctx.startswith("iter:"):
+            return self.derive(sc, n, ctx, depth)[0] in ("member", "sorted", "errortext")
+        if ctx == "arg":
+            return self.callee_param_order_free(sc, sc.parent.get(n), n, depth)
+        return False
+
+    # -- the derivation
+    def derive(self, sc, node, ctx, depth=0):
+        if ctx == "sorted":
+            return "sorted", "sorted(...) here"
+        if ctx in ORDER_FREE:
+            return "member", ctx
+        if ctx == "construct":
+            return "none", "construction"
+        if not (ctx == "iter" or ctx.startswith("iter:") or ctx == "arg"):
+            return None, "not derived for this context"
+        # only inside a raise statement?
+        p = sc.parent.get(node)
+        q = p
+        while q is not None and not isinstance(q, (ast.FunctionDef, ast.AsyncFunctionDef)):
+            if isinstance(q, ast.Raise):
+                return "errortext", "inside a raise statement"
+            q = sc.parent.get(q)
+        if ctx == "arg":
+            if self.callee_param_order_free(sc, p, node, depth):
+                return "member", f"parameter of {sc.callee_name(p)} is consumed order-free"
+            return "unknown", f"argument of {sc.callee_name(p)}"
+        # a parameter that every caller passes sorted
+        pi = self.param_info(sc, node)
+        if pi is not None:
+            fn, pname, idx = pi
+            r = self.all_callers_sort(fn.name, pname, idx)
+            if r:
+                return "sorted", f"every call of {fn.name} passes sorted(...) for {pname}"
+        if isinstance(p, (ast.For, ast.AsyncFor)) and p.iter is node:
+            if self.feeds_only_sets(sc, p.body) and not p.orelse:
+                return "member", "loop body only feeds other sets"
+            fn = self.enclosing_function(sc, node)
+            yields = [y for y in ast.walk(p) if isinstance(y, (ast.Yield, ast.YieldFrom))]
+            if fn is not None and yields:
+                r = self.all_callers_sort(fn.name, None, None)
+                if r:
+                    return "sorted", f"generator: every call of {fn.name} is wrapped in sorted(...)"
+            return "unknown", "for loop whose body does more than feed sets"
+        if isinstance(p, ast.comprehension) and p.iter is node:
+            comp = sc.parent.get(p)
+            cpar = sc.parent.get(comp)
+            if isinstance(comp, (ast.SetComp,)):
+                return "member", "feeds a set comprehension"
+            if isinstance(cpar, ast.Call) and isinstance(cpar.func, ast.Name) and cpar.args and cpar.args[0] is comp:
+                if cpar.func.id == "sorted":
+                    return "sorted", "comprehension directly inside sorted(...)"
+                if cpar.func.id in ("set", "frozenset", "any", "all", "sum", "len", "min", "max"):
+                    return "member", f"comprehension inside {cpar.func.id}(...)"
+            return "unknown", "comprehension whose result keeps the order"
+        if ctx.startswith("iter:"):
+            if isinstance(p, ast.Call):
+                pp = sc.parent.get(p)
+                if isinstance(pp, ast.Call) and isinstance(pp.func, ast.Name) and pp.func.id == "sorted" and pp.args and pp.args[0] is p:
+                    return "sorted", f"{ctx[5:]}(...) directly inside sorted(...)"
+            return "unknown", f"{ctx[5:]}(...) keeps the iteration order"
+        return "unknown", "shape not understood"
+
+
+def scan_repo_full(repo: str):
+    """(sites, derived) — derived: {site key: (sink or None, why)}"""
+    base = os.path.join(repo, "ariadne_codegen")
+    trees = {}
+    for root, _dirs, files in os.walk(base):
+        for f in sorted(files):
+            if f.endswith(".py"):
+                p_ = os.path.join(root, f)
+                rel = os.path.relpath(p_, base)
+                if not any(rel.startswith(x) for x in EXCLUDE_DIRS):
+                    trees[rel] = ast.parse(open(p_, encoding="utf-8").read())
+    g = gather_globals(trees)
+    scans = {}
+    for rel in sorted(trees):
+        sc = FileScan(rel, trees[rel], g)
+        sc.scan()
+        scans[rel] = sc
+    d = Deriver(scans, trees)
+    derived = {}
+    for rel in sorted(scans):
+        sc = scans[rel]
+        for key, node, ctx in sc.site_nodes:
+            sink, why = d.derive(sc, node, ctx)
+            prev = derived.get(key)
+            if prev is not None and prev[0] != sink:
+                sink, why = "unknown", f"occurrences disagree: {prev[1]} / {why}"
+            derived[key] = (sink, why)
+    return d, derived
+
+
+def find_expression(repo_deriver: "Deriver", rel: str, fn_name: str, expr: str) -> bool:
+    """does function fn_name of file rel contain an expression that unparses to expr (whitespace-normalised)?"""
+    sc = repo_deriver.scans.get(rel)
+    if sc is None:
+        return False
+    for n in ast.walk(sc.tree):
+        if isinstance(n, ast.expr):
+            try:
+                if re.sub(r"\s+", " ", ast.unparse(n)) == expr and sc.qualname(n) == fn_name:
+                    return True
+            except Exception:  # noqa
+                continue
+    return False
+
+
+def source_constants(repo: str) -> dict:
+    """Data the model hard-codes, read from the SOURCE (AST) of the implementation; a key is absent when the
+    derivation no longer applies (the check then fails closed)."""
+    base = os.path.join(repo, "ariadne_codegen")
+    out = {}
+    try:
+        tree = ast.parse(open(os.path.join(base, "schema.py"), encoding="utf-8").read())
+        for fn in ast.walk(tree):
+            if isinstance(fn, ast.FunctionDef) and fn.name == "walk_graphql_files":
+                for n in ast.walk(fn):
+                    if isinstance(n, ast.Assign) and isinstance(n.targets[0], ast.Name) and n.targets[0].id == "extensions":
+                        out["graphql_extensions"] = list(ast.literal_eval(n.value))
+    except Exception:  # noqa
+        pass
+    try:
+        tree = ast.parse(open(os.path.join(base, "client_generators", "constants.py"), encoding="utf-8").read())
+        consts = {}
+        for st in tree.body:
+            if isinstance(st, ast.Assign) and isinstance(st.targets[0], ast.Name):
+                if isinstance(st.value, ast.Constant) and isinstance(st.value.value, str):
+                    consts[st.targets[0].id] = st.value.value
+        shared = {}
+        for st in tree.body:
+            if isinstance(st, ast.Assign) and isinstance(st.targets[0], ast.Name) and isinstance(st.value, ast.Call) \
+                    and ast.unparse(st.value.func) == "ast.ImportFrom":
+                kw = {k.arg: k.value for k in st.value.keywords}
+                names = []
+                for el in kw["names"].elts:
+                    a0 = el.args[0]
+                    names.append(consts[a0.id] if isinstance(a0, ast.Name) else a0.value)
+                mod = ast.unparse(kw["module"])
+                shared[st.targets[0].id] = {"module": mod, "names": names, "level": ast.literal_eval(kw["level"])}
+        out["shared_imports"] = shared
+    except Exception:  # noqa
+        pass
+    return out
+
+
 def key_counts(sites) -> dict[tuple, list[int]]:
     out: dict[tuple, list[int]] = {}
     for f, fn, ctx, text, line in sites:
         out.setdefault((f, fn, ctx, text), []).append(line)
     return out
 
+
+if __name__ == "__main__" and len(sys.argv) > 2 and sys.argv[2] == "--derived":
+    _d, der = scan_repo_full(sys.argv[1])
+    for k, (sink, why) in sorted(der.items()):
+        if sink is not None:
+            print(f"{k[0]}\t{k[1]}\t{k[2]}\t{k[3][:60]}\t=> {sink}\t({why})")
+    sys.exit(0)
 
 if __name__ == "__main__":
     repo = sys.argv[1] if len(sys.argv) > 1 else os.environ.get("VERIF_REPO", "/repo")
